@@ -88,12 +88,15 @@ class Module:
             from .normalize import split_tuple_assignments, fold_constant_conditions
             self.norm_counts['folded'] = fold_constant_conditions(self.tree)
             self.norm_counts['tuple_split'] = split_tuple_assignments(self.tree)
+            from .normalize import counting_while_to_for
+            late_for = counting_while_to_for(self.tree)      # a counter initialised through a tuple unpacking only shows after the split
+            self.norm_counts['counting_while'] = self.norm_counts.get('counting_while', 0) + late_for
             if self.inlined:
                 self.norm_counts['coalesced'] = inline.coalesce_inlined_results(self.tree)
             self.renamed = alpha.apply(self.tree, relpath)
             from . import propagate
             self.propagated = propagate.apply(self.tree, relpath, loader)
-            if self.propagated:
+            if self.propagated or late_for:
                 # substituted temporaries can complete a loop -> comprehension pattern, which in turn can free another temporary
                 from .normalize import loops_to_comprehensions
                 if loops_to_comprehensions(self.tree):
